@@ -180,6 +180,19 @@ CLAIMED = {
         "only through the SQL workloads; rows above a twentieth of the page are the recorded B+tree finding.",
    technique="Coq refinement proof (pager cache = plain memory up to explicit OOM) + differential correspondence (pager facade) + cross-configuration agreement oracle on SQL workloads",
    design="7 (C12)"),
+ "C06": dict(
+   text="Props/C06.v: for every table, every index agreeing with it, every range and residual predicate, the index scan returns "
+        "exactly the rows of the sequential scan, each once; the agreement holds initially and is preserved by INSERT (NULL keys "
+        "have no entry), DELETE and UPDATE of other columns (C06_index_scan), so along every such history every index agrees with "
+        "its table.  UPDATE of the indexed column as the engine performs it is proved NOT to preserve it, with a witness that is "
+        "replayed on the code on every run (C06_update_key_refuted, finding pinned by a suite test).  The reference has no planner "
+        "and ANALYZE is the identity (C06_reference).  On every run plan-variant pairs (index vs wrapped predicate, before vs after "
+        "ANALYZE, both join orders, WHERE vs ON) must return identical rows (oracle independent of the model) and the reference's "
+        "answer, with EXPLAIN confirming that different plans ran.  A defect found this way was fixed (statistics deserialised "
+        "from an unaligned buffer made every statement after ANALYZE panic).",
+   note="Trusted: Coq kernel; set-level index model hand-written; join order / push-down / costing only through variant pairs.",
+   technique="Coq proof (index scan = table scan under an agreement invariant preserved by DML; refutation for key updates) + plan-variant differential correspondence",
+   design="7 (C06)"),
 }
 NOT_YET = "not claimed yet: model and proofs under construction in this session (see DESIGN.md section 10, build order)"
 
